@@ -688,7 +688,7 @@ pub fn run_zoned(a: &Args, which: &str) {
                     }
                 }
                 for &(ts, cls) in &insts {
-                    c11_for_ref(&mut out, &mut rng, &Ref::Z(Zoned::new(ts, tz.clone())), if quick { 3 } else { 10 }, cls);
+                    c11_for_ref(&mut out, &mut rng, &Ref::Z(Zoned::new(ts, tz.clone())), if quick { 3 } else { 4 }, cls);
                 }
             }
             "c10z" => {
